@@ -105,9 +105,7 @@ impl MonitorSolver {
 
 pub fn model_values(a: &Assignment, n_vars: usize) -> Result<Vec<Option<bool>>, String> {
     // value_of panics when the variable is beyond the assignment: catch it as a contract error
-    let r = std::panic::catch_unwind(std::panic::AssertUnwindSafe(|| {
-        (1..=n_vars).map(|v| a.value_of(v)).collect::<Vec<_>>()
-    }));
+    let r = crate::report::catch(|| (1..=n_vars).map(|v| a.value_of(v)).collect::<Vec<_>>());
     match r {
         Ok(v) => Ok(v),
         Err(_) => Err(format!(
